@@ -86,6 +86,39 @@ fn emulate_normal(n: libc::c_int) -> String {
     })
 }
 
+/// block another (terminating) signal and leave it pending: the default action of `n` - native or
+/// emulated - must not be disturbed by it, and must not deliver it
+fn leave_other_pending(n: libc::c_int) {
+    let other = if n == libc::SIGUSR2 { libc::SIGUSR1 } else { libc::SIGUSR2 };
+    unsafe {
+        let mut set: libc::sigset_t = std::mem::zeroed();
+        libc::sigemptyset(&mut set);
+        libc::sigaddset(&mut set, other);
+        libc::sigprocmask(libc::SIG_BLOCK, &set, std::ptr::null_mut());
+        libc::raise(other);
+    }
+}
+
+fn native_pending(n: libc::c_int) -> String {
+    fork_classify(|| unsafe {
+        leave_other_pending(n);
+        if libc::raise(n) != 0 {
+            return 3;
+        }
+        0
+    })
+}
+
+fn emulate_pending(n: libc::c_int) -> String {
+    fork_classify(|| {
+        leave_other_pending(n);
+        match signal_hook::low_level::emulate_default_handler(n) {
+            Ok(()) => 0,
+            Err(_) => 3,
+        }
+    })
+}
+
 fn emulate_in_handler(n: libc::c_int) -> String {
     fork_classify(|| {
         let r = unsafe {
@@ -127,9 +160,10 @@ pub fn main() -> i32 {
             ["emu", n, ctx] => match n.parse::<i64>() {
                 Ok(n) if n >= i32::MIN as i64 && n <= i32::MAX as i64 => {
                     let n = n as libc::c_int;
-                    let k = native(n);
+                    let k = if *ctx == "pending" { native_pending(n) } else { native(n) };
                     let e = match *ctx {
                         "normal" => emulate_normal(n),
+                        "pending" => emulate_pending(n),
                         "handler" => emulate_in_handler(n),
                         "cond" => emulate_cond_default(n),
                         _ => "bad-ctx".into(),
